@@ -250,8 +250,10 @@ func runStress(rep *Report, replay string) {
 	var ops int64
 	var torn, lost int64
 	progress := make([]int64, 16)
+	spawned := make([]bool, 16)
 	var wg sync.WaitGroup
 	worker := func(id int, fn func(r *rand.Rand)) {
+		spawned[id] = true
 		wg.Add(1)
 		go func() {
 			defer wg.Done()
@@ -454,7 +456,7 @@ func runStress(rep *Report, replay string) {
 		time.Sleep(200 * time.Millisecond)
 		for i := range progress {
 			p := atomic.LoadInt64(&progress[i])
-			if p != last[i] || p == 0 && i > 12 {
+			if p != last[i] || !spawned[i] {
 				last[i] = p
 				stuckSince[i] = time.Time{}
 			} else if stuckSince[i].IsZero() {
